@@ -3,8 +3,9 @@
    the whole-program equality, const substitution and imports are decided on the implementation by the expansion oracle). *)
 From Coq Require Import List NArith ZArith Bool PeanoNat.
 Import ListNotations.
+From Mos Require spec.Relayout spec.Expand.
 From Mos Require Import model.I64 Gen.BinOps model.Expr Gen.OpcodeTable spec.Isa model.Encode.
-From Mos Require Import model.SymTab Gen.CodegenConsts model.Segment model.Asm proofs.AsmSim proofs.ExpandProofs proofs.AsmWitnesses.
+From Mos Require Import model.SymTab Gen.CodegenConsts model.Segment model.Asm proofs.AsmSim proofs.AsmFuel proofs.ExpandProofs proofs.ExpandWhole proofs.AsmWitnesses.
 Open Scope Z_scope.
 
 (* `.if c {a} else {b}` is exactly the statements of the branch selected by the value of c, in the same scope. *)
@@ -34,11 +35,12 @@ Proof. exact macro_meaning. Qed.
 Print Assumptions C07_macro.
 
 (* `.loop e {b}` with count n is the iterations 0 .. n-1 in order, each in its own scope with b's block symbols and
-   `index` bound to the iteration number. *)
+   `index` bound to the iteration number (a count above the per-pass iteration limit is not followed by the model). *)
 Theorem C07_loop : forall fuel e lsc b c,
   emit_token (S fuel) (TLoop e lsc b) c =
   match evaluate_expression_as_i64 e c with
-  | Ret (Some n) c1 => loop_iterations fuel loop_first_index n (iteration (emit_token fuel) e lsc b) c1
+  | Ret (Some n) c1 => if loop_iteration_limit <? n then Abort FUnsupported
+                       else loop_iterations fuel loop_first_index n (iteration (emit_token fuel) e lsc b) c1
   | Ret None c1 => Ret tt c1
   | Err ds c1 => Err ds c1
   | Abort f => Abort f
@@ -82,6 +84,90 @@ Theorem C07_changed_not_reported : forall id sym c,
 Proof. exact changed_not_reported. Qed.
 Print Assumptions C07_changed_not_reported.
 
+(* WHOLE PROGRAMS (C07_whole_program_partial).  The full statement would be
+     codegen p = Done c -> codegen (expand p) = Done c' -> images c = images c'   for every construct;
+   proved here: for the expansion relation Xp -- every `.if` with a closed condition replaced by the statements of the
+   selected branch and every `.loop` with a closed count n replaced by the n blocks `{ .const index = <i>  body }`, at any
+   nesting depth inside blocks, labelled blocks, `.if` branches, loop bodies and segment blocks, the remaining statements
+   unchanged -- a program that assembles without a diagnostic in any pass (codegen_ok) and its expansion run through the
+   same sequence of passes and end with the same symbol table and the same segment images (the expansion with one more
+   unit of fuel).  What remains partial: conditions / counts that depend on symbols (the two programs then need not run
+   the same passes), runs with transient diagnostics (a diagnostic ends a loop early but not a sequence of blocks), and
+   the macro / constant / import expansions, whose tables differ from the original's (extra `-` `+` symbols and labels):
+   for those the per-construct theorems above and below hold and the equality of images is decided by the oracle. *)
+Theorem C07_whole_program_partial : forall p p' passes F o cf,
+  Xp p p' -> codegen_ok passes F o p = Some cf ->
+  codegen passes F o p = Done cf /\
+  exists cf', codegen passes (S F) o p' = Done cf' /\ E cf cf' /\ segment_image cf = segment_image cf' /\ symbols cf = symbols cf'.
+Proof. exact whole_program. Qed.
+Print Assumptions C07_whole_program_partial.
+
+(* fuel is only a bound: a statement that does not run out of fuel does the same with more fuel *)
+Theorem C07_fuel_monotone : forall k fuel t, Le (emit_token fuel t) (emit_token (k + fuel) t).
+Proof. exact emit_token_fuel_le. Qed.
+Print Assumptions C07_fuel_monotone.
+
+(* Constants: replacing names by their parenthesised definitions does not change the value of an expression, under the
+   exact guard that, in the environment of the use, each replaced name is a number and its definition evaluates to that
+   number (its free symbols mean at the use what they meant at the definition). *)
+Theorem C07_const_subst : forall en sigma, subst_guard en sigma -> forall e, eval en (subst_with sigma e) = eval en e.
+Proof. exact const_subst. Qed.
+Print Assumptions C07_const_subst.
+
+(* ... and the substitution the expansion oracle performs (spec/Expand.v) is that function *)
+Theorem C07_const_subst_oracle : forall m defs scope en e,
+  subst_guard en (sigma_of m defs scope) -> eval en (Expand.subst_expr m defs scope e) = eval en e.
+Proof. exact expand_const_subst. Qed.
+Print Assumptions C07_const_subst_oracle.
+
+(* Imports: the parameter block and the file's statements in the import's scope, then the names of the file are linked into
+   the importing scope -- all of them, all under a namespace, or the listed ones under their own name or alias. *)
+Theorem C07_import_all : forall fuel star isc b toks c,
+  emit_token (S fuel) (TImport (ImportAll star None) isc b (Some toks)) c =
+  (import_body (emit_token fuel) isc b toks ;;;
+   c1 <- get ;;
+   match try_index (symbols c1) (current_scope_nx c1) [isc] with
+   | None => ret tt
+   | Some import_nx =>
+       do_exports (map (fun ch => (snd ch, current_scope_nx c1, [fst ch], star))
+                       (filter (fun ch => negb (is_special (fst ch))) (children (symbols c1) import_nx)))
+   end) c.
+Proof. exact import_all_meaning. Qed.
+Print Assumptions C07_import_all.
+
+Theorem C07_import_as : forall fuel star p psp isc b toks c,
+  emit_token (S fuel) (TImport (ImportAll star (Some (p, psp))) isc b (Some toks)) c =
+  (import_body (emit_token fuel) isc b toks ;;;
+   c1 <- get ;;
+   match try_index (symbols c1) (current_scope_nx c1) [isc] with
+   | None => ret tt
+   | Some import_nx =>
+       scope_nx <- import_as_scope p ;;
+       c2 <- get ;;
+       do_exports (map (fun ch => (snd ch, scope_nx, [fst ch], psp))
+                       (filter (fun ch => negb (is_special (fst ch))) (children (symbols c2) import_nx)))
+   end) c.
+Proof. exact import_as_meaning. Qed.
+Print Assumptions C07_import_as.
+
+Theorem C07_import_specific : forall fuel items isc b toks c,
+  emit_token (S fuel) (TImport (ImportSpecific items) isc b (Some toks)) c =
+  (import_body (emit_token fuel) isc b toks ;;;
+   c1 <- get ;;
+   match try_index (symbols c1) (current_scope_nx c1) [isc] with
+   | None => ret tt
+   | Some import_nx => l <- specific_exports import_nx items ;; do_exports l
+   end) c.
+Proof. exact import_specific_meaning. Qed.
+Print Assumptions C07_import_specific.
+
+(* the imported names are visible: after an export the name resolves, from the target scope, to the imported symbol itself *)
+Theorem C07_import_visible : forall (t : symtab symbol) x parent name t',
+  is_super name = false -> export t x parent [name] = (t', true) ->
+  try_index t' parent [name] = Some x /\ nodes t' = nodes t.
+Proof. exact export_visible. Qed.
+Print Assumptions C07_import_visible.
+
 (* ---- non-vacuity ---- *)
 Example C07_closed_literal : closed_value (mkL (ENum 10 [51%N] false false) (0, 0) []) 3.
 Proof. repeat split. Qed.
@@ -109,3 +195,20 @@ Example C07_example_changing_symbols_converge :
   exists c, codegen 200 10 default_options prog_changed = Done c /\
             map snd (segment_image c) = [[173; 4; 1; 173; 5; 1; 173; 6; 1; 234; 234; 234]%N].
 Proof. exact changing_symbols_converge. Qed.
+
+(* the whole-program theorem applies: `.loop 2 { dex / bne - }` assembles without a diagnostic and is Xp-related to its blocks *)
+Example C07_example_whole_program :
+  Xp prog_loop prog_blocks /\ exists c, codegen_ok 10 10 default_options prog_loop = Some c.
+Proof.
+  split.
+  - unfold prog_loop, prog_blocks.
+    apply (Xp_loop (mkL (ENum 10 [50%N] false false) (sp 6 7) []) 2 t_sc (sp 8 9) (sp 20 21) body_dex_bne body_dex_bne
+             [mkL (ENum 10 [48%N] false false) (0, 0) []; mkL (ENum 10 [49%N] false false) (0, 0) []] [] []).
+    + repeat split.
+    + vm_compute. discriminate.
+    + reflexivity.
+    + cbn. repeat split.
+    + repeat apply Xp_keep. apply Xp_nil.
+    + apply Xp_nil.
+  - eexists. vm_compute. reflexivity.
+Qed.
